@@ -350,20 +350,12 @@ def secsToDurationNs (s : Float) : Nat :=
   let nanos := ((s - s.floor) * 1000000000.0).toUInt32.toNat
   secs * 1000000000 + nanos
 
-/-- `Duration::saturating_add` with `Duration::MAX` = (2^64-1) s + 999_999_999 ns -/
-def durSatAdd (a b : Nat) : Nat := min (a + b) ((2 ^ 64 - 1) * 1000000000 + 999999999)
-
 def perSecE (w : Estimator.EW Float) (now : Nat) : Float :=
   if w.finished then Float.ofNat w.pos / (Float.ofNat ((now - w.started) / 1000000000) + Float.ofNat ((now - w.started) % 1000000000) / 1000000000.0)
   else Estimator.stepsPerSecond Estimator.floatOps w.est now
 
 def etaE (w : Estimator.EW Float) (now : Nat) : Nat :=
-  if w.finished then 0 else
-  match w.len with
-  | none => 0
-  | some len =>
-    let sps := Estimator.stepsPerSecond Estimator.floatOps w.est now
-    if sps == 0.0 then 0 else secsToDurationNs (Float.ofNat (len - w.pos) / sps)
+  Estimator.etaOf Estimator.floatOps (fun x => x == 0.0) secsToDurationNs w now
 
 /-- `EST t0 len|none ; adv n ; upd p ; inc d ; setpos p ; reseteta ; resetelapsed ; reset ; finish ; len l|none ; q ; eta ; dur ; el` -/
 def runEstimator (rest : String) : String :=
@@ -390,8 +382,8 @@ def runEstimator (rest : String) : String :=
           | ["len", l] => (Estimator.step o w now (.setLen l.toNat?), now, outs)
           | ["q"] => (w, now, outs ++ [toString (perSecE w now).toBits])
           | ["eta"] => (w, now, outs ++ [toString (etaE w now)])
-          | ["dur"] => (w, now, outs ++ [toString (if w.len.isNone || w.finished then 0 else durSatAdd (now - w.started) (etaE w now))])
-          | ["el"] => (w, now, outs ++ [toString (now - w.started)])
+          | ["dur"] => (w, now, outs ++ [toString (Estimator.durationOf Estimator.floatOps (fun x => x == 0.0) secsToDurationNs w now)])
+          | ["el"] => (w, now, outs ++ [toString (Estimator.elapsedOf w now)])
           | _ => (w, now, outs ++ ["bad-op"])) (w0, t0, [])
         " ".intercalate outs
     | _ => "bad-op"
